@@ -48,11 +48,12 @@ def verify(node, pl, res, phase, sig_base, witness, buffered):
         dup = sorted(k for k, rs in by_k.items() if len(rs) > 1)
         foreign = sorted(str(k) for k in by_k if k not in A and k not in U)
         if buffered and phase == "after_crash_restart" and lost:
-            # weakened clause: per context (hence per shard) the survivors form a prefix of the apply order
+            # weakened clause: per context (hence per shard) the survivors of one process lifetime form a prefix of that lifetime's
+            # apply order (an earlier crash of the same history may already have cost the tail of an earlier lifetime)
             lost_set = set(lost)
             bad = []
-            for ctx in {op["ctx"] for op in A.values()}:
-                ks = sorted(k for k, op in A.items() if op["ctx"] == ctx)
+            for ctx, life in {(op["ctx"], op.get("life", 0)) for op in A.values()}:
+                ks = sorted(k for k, op in A.items() if op["ctx"] == ctx and op.get("life", 0) == life)
                 seen_lost = False
                 for k in ks:
                     if k in lost_set:
